@@ -51,8 +51,13 @@ def alphabet(client):
     call("rst1", "reset_stream", 1, 8)
     call("data1", "send_data", 1, b"abc", end_stream=False)
     call("end1", "end_stream", 1)
+    from hpack import HeaderTuple, NeverIndexedHeaderTuple
     if client:
         call("req1", "send_headers", 1, H.REQ + [(b"cookie", b"a=b"), (b"x-a", b"1"), (b"x-b", b"2")])
+        # the same fields handed over as the hpack tuple classes (equal to the plain tuples, different on the wire)
+        call("req1-ni", "send_headers", 1, H.REQ + [(b"cookie", b"a=b"), NeverIndexedHeaderTuple(b"x-a", b"1"), HeaderTuple(b"x-b", b"2")])
+        rx("rx-resp-2cl", wire.headers(1, sb(H.RESP + [(b"content-length", b"3"), (b"content-length", b"5")])))
+        rx("rx-data1-es", wire.data(1, b"abc", es=True))
         call("req1-noauth", "send_headers", 1, [(b":method", b"GET"), (b":scheme", b"https"), (b":path", b"/")])
         call("req3-resp-pseudo", "send_headers", 3, H.REQ + [(b":status", b"200")])
         call("trailers-2pseudo", "send_headers", 1, [(b":status", b"200"), (b":path", b"/"), (b":method", b"GET")], end_stream=True)
@@ -65,6 +70,9 @@ def alphabet(client):
         rx("rx-altsvc", wire.altsvc(1, b"", b"h2=\":443\""))
     else:
         call("resp1", "send_headers", 1, H.RESP + [(b"set-cookie", b"a"), (b"x-a", b"1")])
+        call("resp1-ni", "send_headers", 1, H.RESP + [(b"set-cookie", b"a"), NeverIndexedHeaderTuple(b"x-a", b"1")])
+        rx("rx-req1-2cl", wire.headers(1, sb(H.REQ_POST + [(b"content-length", b"3"), (b"content-length", b"5")])))
+        rx("rx-data1-es", wire.data(1, b"abc", es=True))
         call("resp1-reqpseudo", "send_headers", 1, H.RESP + [(b":path", b"/"), (b":method", b"GET"), (b":scheme", b"https")])
         call("push", "push_stream", 1, 2, H.REQ)
         call("altsvc", "advertise_alternative_service", b"h2=\":443\"", b"example.com")
@@ -98,7 +106,10 @@ def _step(conn, act):
     ret = None
     try:
         if act[0] == "call":
-            ret = getattr(conn, act[1])(*act[2], **act[3])
+            # fresh argument objects for every call, as an application builds them (and drops them afterwards)
+            args = tuple(list(a) if isinstance(a, list) else (dict(a) if isinstance(a, dict) else a) for a in act[2])
+            ret = getattr(conn, act[1])(*args, **act[3])
+            del args
         else:
             data = act[1]
             if isinstance(data, (list, tuple)):
@@ -161,7 +172,7 @@ def _fresh_default(client):
     return h2.connection.H2Connection(config=h2.config.H2Configuration(client_side=False))
 
 
-def isolation_main(role, depth, outpath):
+def isolation_main(role, depth, outpath, reverse=False):
     """Every program (the alphabet plus the documented run-time configuration switches) is run on a freshly constructed
     connection in a first pass and again in a second pass of the SAME process, after all the other programs have run on
     their own connections.  Two connections driven by the same calls must behave identically, whatever other
@@ -189,7 +200,10 @@ def isolation_main(role, depth, outpath):
 
     def run_pass():
         out = {}
-        for prog in programs(depth):
+        progs = list(programs(depth))
+        if reverse:
+            progs.reverse()
+        for prog in progs:
             conn = _fresh_default(client)
             dg = None
             for i in prog:
@@ -201,7 +215,8 @@ def isolation_main(role, depth, outpath):
     second = run_pass()
     diffs = [list(p) for p in sorted(first) if first[p] != second[p]]
     with open(outpath, "w") as fh:
-        json.dump({"programs": len(first), "differing": diffs[:50], "n_differing": len(diffs), "alphabet": [a[0] for a in A]}, fh)
+        json.dump({"programs": len(first), "differing": diffs[:50], "n_differing": len(diffs), "alphabet": [a[0] for a in A],
+                   "digests": {",".join(map(str, p)): d for p, d in first.items()}}, fh)
 
 
 def _run_isolation(depth, roles):
@@ -210,17 +225,30 @@ def _run_isolation(depth, roles):
     tmpd = tempfile.mkdtemp(prefix="c28iso-")
     procs = []
     for role in roles:
-        out = os.path.join(tmpd, "iso-%s.json" % role)
-        env = dict(os.environ, PYTHONHASHSEED="0", PYTHONPATH=here)
-        code = ("import sys; sys.path.insert(0, %r); from h2mc import env; from h2mc.checks import c28; "
-                "c28.isolation_main(%r, %d, %r)" % (here, role, depth, out))
-        procs.append((role, out, subprocess.Popen([sys.executable, "-c", code], env=env)))
+        for rev in (False, True):
+            out = os.path.join(tmpd, "iso-%s-%d.json" % (role, rev))
+            env = dict(os.environ, PYTHONHASHSEED="0", PYTHONPATH=here)
+            code = ("import sys; sys.path.insert(0, %r); from h2mc import env; from h2mc.checks import c28; "
+                    "c28.isolation_main(%r, %d, %r, %r)" % (here, role, depth, out, rev))
+            procs.append((role, rev, out, subprocess.Popen([sys.executable, "-c", code], env=env)))
     res = {}
-    for role, out, p in procs:
+    for role, rev, out, p in procs:
         if p.wait() != 0:
             raise RuntimeError("c28 isolation worker failed (%s)" % role)
-        res[role] = json.load(open(out))
+        r = json.load(open(out))
         os.unlink(out)
+        if not rev:
+            res[role] = r
+        else:
+            # the same programs run in the opposite order in another process: what ran before must not matter
+            fwd = res[role]
+            other = [[int(x) for x in k.split(",")] for k in sorted(fwd["digests"]) if r["digests"].get(k) != fwd["digests"][k]]
+            other += r["differing"]
+            fwd["differing"] = fwd["differing"] + other[:50]
+            fwd["n_differing"] += len(other)
+            fwd["order_dependent"] = len(other)
+    for role in res:
+        res[role].pop("digests", None)
     os.rmdir(tmpd)
     return res
 
@@ -280,7 +308,8 @@ def compare(results, seeds, roles, nshards):
                             viols[k] = {"kind": "nondeterministic", "sig": sig,
                                         "msg": "[%s] program %s: observation differs between PYTHONHASHSEED=%s and %s" % (
                                             role, prog, seeds[0], s),
-                                        "case": {"role": role, "program": prog, "path": idx, "seeds": [seeds[0], s]}}
+                                        "case": {"role": role, "program": prog, "path": idx, "seeds": [seeds[0], s],
+                                                 "shard": shard, "nshards": nshards, "depth": max(len(p.split(",")) for p in base["digests"])}}
             if len(samples) < 3:
                 p = sorted(base["digests"])[len(base["digests"]) // 2]
                 samples.append({"role": role, "program": [names[int(i)] for i in p.split(",")]})
@@ -296,6 +325,18 @@ def replay(rec):
             return [{"kind": "connections-not-independent", "sig": rec["sig"], "msg": rec.get("msg", "")}]
         return []
     here = os.path.dirname(os.path.dirname(os.path.dirname(os.path.abspath(__file__))))
+    if "nshards" in case:
+        # the observation may depend on what the process did before this program: re-run the whole shard of the
+        # program tree in two fresh interpreters, exactly as the check does
+        res = _run_all(case["depth"], case["seeds"], (case["role"],), case["nshards"])
+        key = ",".join(map(str, case["path"]))
+        a = res[(case["role"], case["shard"], case["seeds"][0])]["digests"].get(key)
+        b = res[(case["role"], case["shard"], case["seeds"][1])]["digests"].get(key)
+        if a != b:
+            return [{"kind": "nondeterministic",
+                     "sig": {"kind": "nondeterministic", "role": case["role"], "last_action": case["program"][-1]},
+                     "msg": "program %s differs between seeds %s" % (case["program"], case["seeds"])}]
+        return []
     outs = []
     for s in case["seeds"]:
         env = dict(os.environ)
@@ -345,5 +386,5 @@ def run(ctx):
                            "case": {"layer": "isolation", "role": role, "program": prog, "path": path, "depth": idepth}})
     ctx.fanouts.append({"harness": "c28-isolation-depth%d" % idepth, "evaluations": 2 * total,
                         "outcomes": {"programs": total, "passes": 2}, "nontrivial": total, "states": total,
-                        "domain": "all programs of depth <= %d over the alphabet + 3 run-time configuration switches, each run twice in one process on freshly constructed connections" % idepth,
+                        "domain": "all programs of depth <= %d over the alphabet + 3 run-time configuration switches, each run twice in one process on freshly constructed connections, and once more in a second process in the opposite order" % idepth,
                         "wall_s": 0})
